@@ -1,5 +1,7 @@
 package main
 
+import "golang.org/x/tools/go/ssa"
+
 func init() {
 	register("C38", []string{"."}, runC38)
 	propExplain["C38"] = "Decides the capture clause of C38 in DB.Checkpoint: file deletions are disabled before anything is captured and re-enabled by a deferred call; the current version, the MANIFEST size, the list of WALs, the queue of flushable ingests and the visible sequence number are all captured inside ONE region in which both DB.mu and the manifest lock are held, and the version is referenced before that region ends (released by a deferred Unref); with flushWAL the WAL is synced before the capture; success is returned only after the checkpoint directory was synced. Does not decide the contents of restricted-span checkpoints (value-level)."
@@ -53,7 +55,18 @@ func runC38(c *Ctx) {
 	hasUnref := len(instrs(fn, DeferTo("man.(*Version).Unref"))) > 0
 	c.Ob("C38.P1", fn, "captured version released by a deferred Unref", c.P.Pos(fn.Pos()), hasUnref, "")
 	// success only after the directory sync
-	fl2 := NewFlow(c.P).Ok("ok:dir.Sync", MethodOn("Sync", "dir"))
+	dirSync := And(MethodOn("Sync", ""), Pred("receiver is the directory handle returned by mkdirAllAndSyncParents", func(in ssa.Instruction) bool {
+		cc := getCallCommon(in)
+		if cc == nil {
+			return false
+		}
+		ci := infoOfCommon(cc)
+		return ci.Recv != nil && len(derivesFrom(ci.Recv, CallPred("mkdirAllAndSyncParents", ""), 4)) > 0
+	}))
+	if len(instrs(fn, dirSync)) == 0 {
+		c.Unresolved("C38.O2", "no Sync on the handle returned by mkdirAllAndSyncParents in Checkpoint")
+	}
+	fl2 := NewFlow(c.P).Ok("ok:dir.Sync", dirSync)
 	res2 := fl2.Analyze(fn, emptyState())
 	c.RequireAtSuccess("C38.O2", res2, "checkpoint directory sync", []string{"ok:dir.Sync"})
 }
